@@ -33,17 +33,17 @@ void Resource::lock(OpType opType) {
 
     if (m_queue.empty() && (m_activeOp == OpType::None || (m_activeOp == opType && opType == OpType::Read))) {
         m_activeOp = opType;
+        ++m_activeCount;
     } else {
         auto id = m_idCounter++;
 
         enqueue(opType);
 
+        // an admitted request has already been counted by `select()`
         m_cv.wait(lock, [id, this] {
             return id < m_upperUnlockBound;
         });
     }
-
-    ++m_activeCount;
 }
 
 void Resource::unlock(OpType opType) {
@@ -87,7 +87,10 @@ void Resource::select() {
     auto op = m_queue.front();
     m_queue.pop_front();
 
+    // count every request of the admitted entry right away: some of them
+    // may wake up only after the others have already unlocked
     m_activeOp = op.type;
+    m_activeCount = static_cast<size_t>(op.upperBound - m_upperUnlockBound);
     m_upperUnlockBound = op.upperBound;
 }
 } // tulz::rwp
